@@ -71,11 +71,16 @@ class Conv:
         self.descs = parse_descriptors(ctx)
         self.fwd = {}
         self.rev = {}
+        from ..normalize import normalize_method
         for name, fn in self.cls.methods.items():
+            if name.endswith("_to_proto") or name.startswith("proto_to_"):
+                # table-driven loops, getattr/setattr by name, extracted helpers and single-use temporaries are undone first
+                fn = normalize_method(self.repo, self.cls, fn)
             if name.endswith("_to_proto"):
                 self.fwd[name[:-len("_to_proto")]] = fn
             elif name.startswith("proto_to_"):
                 self.rev[name[len("proto_to_"):]] = fn
+        self.guard_kind = {}   # id(forward statement) -> ("presence" | "truth" | "other", test) of the `if` directly around it
         self.excluded_by = {}  # id(forward statement) -> attributes whose guard must have failed for the statement to run
         self.ptypes_fwd = {}   # kind -> set of proto type names of the object being filled
         self.ptypes_rev = {}   # kind -> set of proto type names of the `proto` parameter
@@ -147,6 +152,15 @@ class Conv:
                 if isinstance(s, (ast.Assign, ast.Expr, ast.Return)):
                     self.excluded_by[id(s)] = neg
                 if isinstance(s, ast.If):
+                    t_ = s.test
+                    kind_ = "other"
+                    if isinstance(t_, (ast.Attribute, ast.Name)):
+                        kind_ = "truth"
+                    elif any(isinstance(c_, ast.Compare) and len(c_.ops) == 1 and isinstance(c_.ops[0], ast.IsNot) and isinstance(c_.comparators[0], ast.Constant) and c_.comparators[0].value is None
+                             for c_ in ast.walk(t_)):
+                        kind_ = "presence"
+                    for b_ in s.body:
+                        self.guard_kind[id(b_)] = (kind_, t_)
                     walk(s.body, attr_of(s.test), neg)
                     walk(s.orelse, guard, neg + ((attr_of(s.test) or unparse(s.test)),))
                 elif isinstance(s, ast.Assign) and len(s.targets) == 1:
@@ -280,6 +294,10 @@ def rule_bij_desc_has(ctx, cv):
             ctx.check("C10.desc", not missing, w, stmt, "field %r does not exist in %s (assignment raises AttributeError whenever it runs)" % (p, ", ".join(missing)), "field exists in %s" % ", ".join(sorted(ftypes)))
             if guard is not None and a is not None:
                 ctx.check("C10.has", guard == a, w, stmt, "the guard tests attribute %r but the statement copies %r" % (guard, a), "guard and copy use the same attribute")
+            gk = cv.guard_kind.get(id(stmt))
+            if gk is not None and gk[0] == "truth" and nested is None and isinstance(stmt, ast.Assign) and a is not None:
+                # a scalar copied only when it is truthy: 0, 0.0, "", b"" and False are values the sender set
+                ctx.violate("C10.has", w, stmt, "attribute %r is copied only when it is truthy (`if %s:`): a value of 0, an empty string or empty bytes the sender set is dropped and parsed back as None" % (a, unparse(gk[1])[:50]))
             others = [x for x in cv.excluded_by.get(id(stmt), ()) if x != a]
             if others:
                 ctx.violate("C10.has", w, stmt, "attribute %r is only copied when %s %s absent (else / elif branch): a payload that carries both loses %r" % (a, ", ".join(repr(o) for o in others[:3]), "is" if len(others) == 1 else "are", a))
@@ -292,6 +310,11 @@ def rule_bij_desc_has(ctx, cv):
                     continue
                 missing = [t for t in sorted(rtypes) if f not in cv.descs.get(t, {})]
                 ctx.check("C10.desc", not missing, w, "proto.%s in %s" % (f, unparse(e)[:60]), "field %r does not exist in %s" % (f, ", ".join(missing)), "field exists in %s" % ", ".join(sorted(rtypes)))
+            for ie in [x for x in ast.walk(e) if isinstance(x, ast.IfExp)]:
+                t_ = ie.test
+                if isinstance(t_, ast.Attribute) and isinstance(t_.value, ast.Name) and t_.value.id == params_of(rfn)[0] \
+                        and isinstance(ie.orelse, ast.Constant) and ie.orelse.value is None:
+                    ctx.violate("C10.has", w, e, "field %r is read back only when its value is truthy (`%s`): a present field holding 0, an empty string or empty bytes is parsed as absent (None); presence is HasField(%r)" % (t_.attr, unparse(ie)[:60], t_.attr))
             if has:
                 ctx.check("C10.has", reads == has and len(has) == 1, w, e, "HasField(%s) guards a read of %s" % (sorted(has), sorted(reads)), "HasField names the field it guards")
         if ctor is None:
